@@ -440,6 +440,19 @@ def uninit_cases(rng, n):
 def cycle_cases(rng, n):
     """CHM directories whose chunk links form cycles (C04): PMGL NextChunk rings and PMGI entries naming their own chunk"""
     out = []
+    # directed (own generator state, the same on every run): no index, the last listing chunk links back to the first, the header's
+    # last-listing-chunk field absurdly large (it is not checked against the number of chunks); names that are in no chunk of the ring
+    r44 = random.Random(440)
+    for lastv in (0xFFFFFFFF, 0x7FFFFFFF):
+        f0 = [(b"/f%03d.txt" % j, b"x" * (j % 7)) for j in range(40)]
+        chm, exp = chmfmt.build(f0, [], r44, chunk_size=256, density=2, with_index=False)
+        b = bytearray(chm); hs1 = 0x38 + 0x28 + 0x18; dirstart = hs1 + 0x54
+        last = struct.unpack_from("<I", b, hs1 + 0x24)[0]
+        struct.pack_into("<I", b, dirstart + last * 256 + 0x10, 0); struct.pack_into("<I", b, hs1 + 0x24, lastv)
+        sc = scenario.Scn().file("in0.chm", bytes(b)).op("chm_new").op("chm_fast_open", "h0", "in0.chm")
+        for nm in (b"/zzz-absent", b"/f000.txt", b"/f999"): sc.op("chm_find", "h0", nm.hex())
+        sc.op("chm_close", "h0")
+        out.append(Case("cycle:chm-pmgl", "chm", sc))
     for i in range(n):
         f0 = [(b"/f%03d.txt" % j, b"x" * (j % 7)) for j in range(rng.choice([40, 80]))]
         csz = rng.choice([256, 512])
